@@ -75,6 +75,10 @@ pub enum FileCase {
     /// only, kind 1 = it is started by the source without any item (`SrcKind::Started` only).  The
     /// other two carry data whose values are all positive (sign 0) or all negative (sign 1): the
     /// hollow chromosome contributes no minimum and no maximum
+    /// entries whose `rest` ends in white space or is white space only (an empty last column, a name
+    /// ending in a blank, a no-break space): handed over by sources that do not go through text,
+    /// they are stored and come back byte for byte
+    BedRestEdges { opts: Opts },
     /// `n` identical entries on one stretch (a pile: the depth and its square leave the integers
     /// that single precision holds at 4 097) plus a few staggered ones
     BedPile { n: u32, opts: Opts },
@@ -141,6 +145,11 @@ pub fn expand(c: &FileCase) -> FileCase {
                 autosql: None,
                 opts: opts.clone(),
             })
+        }
+        FileCase::BedRestEdges { opts } => {
+            let rests = ["name\t", "gene A ", "\t\t", " ", "x\u{a0}", "plain", "", "a\tb\t", "\tlead"];
+            let mk = |off: u32| -> Vec<BItem> { rests.iter().enumerate().map(|(i, r)| BItem { s: off + i as u32, e: off + i as u32 + 2, rest: r.to_string() }).collect() };
+            FileCase::Bed(BedCase { chroms: vec![BChrom { name: "c".into(), len: L, items: mk(0) }, BChrom { name: "d".into(), len: L, items: mk(3) }], extra_sizes: vec![], allow_ooo: false, autosql: None, opts: opts.clone() })
         }
         FileCase::BedPile { n, opts } => {
             let mut items: Vec<BItem> = (0..*n).map(|i| BItem { s: 10, e: 30, rest: format!("p{}", i) }).collect();
@@ -1119,7 +1128,24 @@ pub fn bed_family(tier: Tier) -> Box<dyn Iterator<Item = FileCase>> {
             })
             .chain(many_zoom_cases(true).into_iter())
             .chain(big_text_cases(true).into_iter())
-            .chain(hollow_cases(true).into_iter()),
+            .chain(hollow_cases(true).into_iter())
+            .chain({
+                let mut v = vec![];
+                for src in [SrcKind::Iter, SrcKind::Started] {
+                    for two_pass in [false, true] {
+                        for (ips, compress) in [(1u32, false), (1024, true)] {
+                            let mut o = Opts::base();
+                            o.src = src;
+                            o.two_pass = two_pass;
+                            o.ips = ips;
+                            o.compress = compress;
+                            o.zoom = Zoom::Manual(vec![4]);
+                            v.push(FileCase::BedRestEdges { opts: o });
+                        }
+                    }
+                }
+                v.into_iter()
+            }),
     )
 }
 
